@@ -26,13 +26,12 @@ TRUSTED = ["model Relic.Model.Zip is hand-written; tied to lib/zipslicer by diff
            "Relic.Spec.Zip is hand-written from APPNOTE; validated against Go archive/zip on every run and CPython zipfile in the thorough tier",
            "Go archive/zip, compress/flate, hash/crc32, CPython zipfile as reference readers"]
 UNPROVED = ["read_agrees_spec_full (false: negation proved, F7a/F7c/F7d/F7e)",
-            "write_read_roundtrip_full (false: not_write_read_roundtrip_full); write_read_roundtrip_readable as first stated lacks one clause "
-            "(every extra field <= 65507 bytes, else the ZIP64 extra of a re-synthesised >= 4 GiB record overflows its 16-bit length): proved "
-            "with it as write_read_roundtrip_readable_partial / rewrite_roundtrip (valid output, kept + added members with metadata and data)",
+            "write_read_roundtrip_full (false: not_write_read_roundtrip_full, F7a); under relicReadable it is the theorem "
+            "write_read_roundtrip_readable (full strength since fix-F7g 9179c59: rewrite_roundtrip, rewrite_refuses_iff)",
             "reemit_unmodified_full (false for the unrepaired GetOriginalDirectory: not_reemit_unmodified_full; the repaired function: "
             "reemit_original_directory, proved for every relicReadable archive; WriteDirectory: reemit_unmodified_readable, exact class canonEnds)",
-            "write_read_roundtrip_readable / zip_rewrite_preserves_members_full stay defs: the first lacks the extra-field clause, the second "
-            "is refuted (C03 not_zip_rewrite_preserves_members_full: without the fixed-layout ZIP64 clause, F7e)"]
+            "zip_rewrite_preserves_members_full (C03) is refuted without the fixed-layout ZIP64 clause "
+            "(not_zip_rewrite_preserves_members_full, F7e); with it: zip_rewrite_preserves_members_readable"]
 IMPL_PARALLEL = 16
 
 READ_FLAGS = {"eocd-comment": "F7c", "tiny": "F7c", "desc-nosig": "F7d", "zip64-partial": "F7e"}
@@ -101,7 +100,7 @@ def branch(op, mres, tag):
     if kind == "wd":
         return "wd:" + ("zip64" if "504b0606" in mres else "plain")
     if kind == "wdx":
-        return "wdx:" + ("fits" if int(op.split(" ")[2]) + 28 < 65536 else "over")
+        return "wdx:" + ("refused" if mres.startswith("err") else "emitted")
     if kind == "many":
         return "many:" + ("zip64" if int(op.split(" ")[2]) + int(op.split(" ")[3]) >= 65535 else "plain")
     if kind == "read":
@@ -118,19 +117,23 @@ def evaluate(op, il, mres, tag, origin, pyline=None):
     if kind == "wd":
         return out
     if kind == "wdx":
-        # the record GetDirectoryHeader synthesises must be as long as its own length fields say (else no reader finds the
-        # next record): Props/C17_Write extraRoom_necessary
+        # whatever GetDirectoryHeader emits must be as long as its own length fields say (else no reader finds the next
+        # record); F7g (fixed 9179c59): it refuses when the ZIP64 field does not fit (Props/C17_Write dirHeader_refuses_iff,
+        # extraRoom_necessary_orig for the code before the fix)
         n, cs, us, off = [int(x) for x in op.split(" ")[2:6]]
         g = core.split(" ")
+        big = cs >= 0xffffffff or us >= 0xffffffff or off >= 0xffffffff
         if g[0] == "ok" and len(g) >= 5:
             head = bytes.fromhex(g[4])
             le16 = lambda b: b[0] | b[1] << 8
             if 46 + le16(head[28:]) + le16(head[30:]) + le16(head[32:]) != int(g[1]):
-                big = cs >= 0xffffffff or us >= 0xffffffff or off >= 0xffffffff
-                cause = "wdx-extralen-overflow" if (big and n + 28 >= 65536) else "wdx-record-length-differs"
-                out.append(("Relic.Props.C17.rewrite_roundtrip", cause, "ExtraLen = %d" % (int(g[1]) - 46 - le16(head[28:]) - le16(head[32:])),
+                out.append(("Relic.Props.C17.dirHeader_refuses_iff", "wdx-record-length-differs",
+                            "ExtraLen = %d" % (int(g[1]) - 46 - le16(head[28:]) - le16(head[32:])),
                             "GetDirectoryHeader: the central record says ExtraLen=%d but carries %d extra bytes (extra field of %d bytes, "
                             "ZIP64 field prepended)" % (le16(head[30:]), int(g[1]) - 46 - le16(head[28:]) - le16(head[32:]), n)))
+        elif not (big and n + 28 >= 65536):
+            out.append(("Relic.Props.C17.dirHeader_refuses_iff", "wdx-refused:" + core[:60], "ok <record>",
+                        "GetDirectoryHeader refuses an entry whose extra block has room for the ZIP64 field (or needs none)"))
         return out
     if kind == "many":
         kv = dict(x.split("=", 1) for x in core.split(" ")[1:] if "=" in x)
@@ -142,7 +145,8 @@ def evaluate(op, il, mres, tag, origin, pyline=None):
                         "relic cannot read back an archive it wrote itself (%s members + %s added)" % tuple(op.split(" ")[2:4])))
         return out
     if kind == "rewrite":
-        if t["valid"] and "contig" in t["flags"] and not core.startswith("ok "):
+        # (a refusal by the guard of fix-F7g is by design: Props/C17_Write rewrite_refuses_iff)
+        if t["valid"] and "contig" in t["flags"] and not core.startswith("ok ") and "wd-extratoolong" not in core:
             out.append(("Relic.Props.C17.write_read_roundtrip_partial", "rewrite-refused:" + core.replace("err ", ""),
                         "ok <archive>", "relic refuses to rewrite a valid, contiguous archive"))
         # rewrite_roundtrip_small evaluated by the specification on the model's output (= the implementation's, by the tie)
